@@ -198,6 +198,8 @@ class Core:
         if not hasattr(self, '_key_by_node'):
             self._key_by_node = {id(fi.node): fi.key for fi in self.idx.funcs.values()}
         self.standing.append(th.fn('closure_code', th.Val, th.Val)(c) == th.strc(self._key_by_node.get(id(f.node), f'{f.module}:{f.qual}')))
+        if 'function' in th.lat['sub'] and isinstance(f.node, (ast.FunctionDef, ast.Lambda)) and f.self_sv is None:
+            self.standing.append(th.isc('function')(c))          # a def / lambda evaluates to a plain function object (identity equality)
         if not f.env or st is None:
             return
         a = f.node.args
